@@ -210,7 +210,11 @@ def conc_search(ctx):
 
 
 # one entry per half of the family; each returns dict(rule=, assumptions=[...], extra={...})
-PARTS = [part_a]
+import C05b
+
+LEAN_MODULES = ['C05', 'C05b']
+
+PARTS = [part_a, C05b.parts]
 
 
 def check(ctx):
